@@ -168,6 +168,13 @@ func analyseLock(fn *ssa.Function, field *types.Var) *lockInfo {
 }
 
 // derivesFromField: v's backward slice (no calls) contains a load of the given field.
+func isMOf(v ssa.Value, field *types.Var) bool {
+	if _, isMap := v.Type().Underlying().(*types.Map); !isMap {
+		return false
+	}
+	return derivesFromField(v, field)
+}
+
 func derivesFromField(v ssa.Value, field *types.Var) bool {
 	found := false
 	backSlice(v, SliceOpts{StopAtCall: func(*ssa.Call) bool { return true }, Visit: func(x ssa.Value, _ *ssa.Function) {
@@ -423,6 +430,48 @@ func checkC15(p *Prog, r *Report) {
 				"reads entries of shard.m and reports presence/values without ever looking at the entry's Wait field: a placeholder inserted by a waiting Get is reported as if the key had been added")
 		}
 	}
+	// add-or-get returns what the map holds: a (V, bool) function of the package that can
+	// report "not inserted" must hand back the value it read from shard.m in that critical
+	// section (or forward another such function's pair), never a value it constructed itself.
+	nPair := 0
+	for _, fn := range funcs {
+		res := fn.Signature.Results()
+		if fn.Parent() != nil || res.Len() != 2 || typeString(res.At(1).Type()) != "bool" {
+			continue
+		}
+		if _, isTP := res.At(0).Type().(*types.TypeParam); !isTP && fn.Origin() == nil && fn.TypeParams().Len() == 0 {
+			continue
+		}
+		nPair++
+		bad := 0
+		var site token.Pos
+		for _, rc := range returnCases(fn, 1) {
+			if b, isC := constBool(rc.Vals[1]); isC && b {
+				continue // inserted: the value is the caller's own
+			}
+			v := rc.Vals[0]
+			okv := false
+			// forwarded pair
+			if e0, ok := v.(*ssa.Extract); ok {
+				if e1, ok := rc.Vals[1].(*ssa.Extract); ok && e0.Tuple == e1.Tuple {
+					okv = true
+				}
+			}
+			for x := range backSlice(v, SliceOpts{NoCallArgs: true}) {
+				if l, ok := x.(*ssa.Lookup); ok && isMOf(l.X, mField) {
+					okv = true
+				}
+			}
+			if !okv {
+				bad++
+				site = rc.Site
+			}
+		}
+		r.check(bad == 0, "E7.returns-map-state", fn.Name()+": value returned with inserted==false comes from the map", p.pos(fn.Pos()), fnName(fn),
+			"every return that may report 'not inserted' returns the value looked up in shard.m (or forwards such a pair)",
+			"can return (own value, false): the caller is told another goroutine's value is in the map but is handed a value that is not the one stored; in please the loser of SyncParsePackage/WaitForBuiltTarget then waits on a channel nobody closes (site "+p.pos(site)+")")
+	}
+	r.floor("E7.returns-map-state", 2)
 	r.Stats["functions_touching_shard"] = nAccessFns
 	r.floor("E6.guarded-access", 6)
 	r.floor("E6.lock-balance", 3)
